@@ -5,7 +5,7 @@ import struct as _struct
 import sys
 import z3
 from .core import Ctx, SymInt, SymBool, EngineLimit, _aff_of, _from_aff, _EMPTY, mk
-from .sbytes import (SBytes, SymStr, sym_bytes, sym_bytearray, sym_int, sym_bool, sym_isinstance, sym_hash)
+from .sbytes import (SBytes, SymStr, sym_bytes, sym_bytearray, sym_int, sym_bool, sym_isinstance, sym_hash, sym_memoryview)
 
 _real_isinstance = builtins.isinstance
 _real_len = builtins.len
@@ -286,7 +286,7 @@ def install():
     from .sbytes import SymInt as _SI, smart_int_hash
     _SI.__hash__ = smart_int_hash
     repl = {"bytes": sym_bytes, "bytearray": sym_bytearray, "isinstance": sym_isinstance,
-            "int": sym_int, "bool": sym_bool, "hash": sym_hash}
+            "int": sym_int, "bool": sym_bool, "hash": sym_hash, "memoryview": sym_memoryview}
     for m in lib_modules():
         d = m.__dict__
         for k, v in repl.items():
